@@ -111,6 +111,9 @@ def from_fmt(C, payload, fmt, opts):
     if fmt == "msgpck":
         return C.from_msgpck(payload, serialization_options=so)
     if fmt == "yaml":
+        # from_yaml takes str or bytes
+        if isinstance(payload, str) and len(payload) % 2 == 0:
+            payload = payload.encode("utf-8")
         return C.from_yaml(payload, serialization_options=so)
     raise ValueError(fmt)
 
